@@ -273,10 +273,83 @@ def check_default_buffers(ctx, g):
         report(f"ScikitLearnNode: refit raised {type(e).__name__}")
 
 
+def check_model_failed_fit(ctx, c):
+    """a Model.fit / ESN.fit that fails on a later sequence (too short for the warm-up, wrong feature
+    count, wrong target size), then the SAME model fitted on good data: the result must be the fit of a
+    fresh model on that data alone"""
+    import reservoirpy.nodes as N
+    ob = "model_failed_fit"
+    rng = np.random.default_rng(c["dseed"])
+    K = c["K"]
+    Xs = [rng.uniform(-1, 1, (L, 2)) for L in c["lens"]]
+    Ys = [np.tanh(x.sum(axis=1, keepdims=True)) for x in Xs]
+    bad = c["bad"]
+    Xb, Yb = list(Xs), list(Ys)
+    if c["failure"] == "short":
+        Xb[bad], Yb[bad] = Xs[bad][:1], Ys[bad][:1]
+        wbad = 3
+    elif c["failure"] == "features":
+        Xb[bad] = np.hstack([Xs[bad], Xs[bad][:, :1]])
+        wbad = c["warmup"]
+    else:
+        Yb[bad] = np.hstack([Ys[bad], Ys[bad]])
+        wbad = c["warmup"]
+
+    def mk():
+        if c["model"] == "esn":
+            return N.ESN(units=6, seed=c["seed"], ridge=1e-3, workers=1)
+        if c["model"] == "deep":
+            return N.Reservoir(6, seed=c["seed"]) >> N.Ridge(ridge=1e-3, name=None) >> N.Reservoir(4, seed=c["seed"] + 1) >> N.Ridge(ridge=1e-3)
+        return N.Reservoir(6, seed=c["seed"]) >> N.Ridge(ridge=1e-3)
+
+    def weights(m):
+        nodes = [m.readout] if c["model"] == "esn" else [n for n in m.nodes if type(n).__name__ == "Ridge"]
+        return [np.vstack([np.asarray(n.bias), np.asarray(n.Wout)]) for n in nodes]
+    kw = {} if c["model"] == "esn" else {"reset": True}
+    Yfit = Ys if c["model"] != "deep" else None
+    ctx.count(c, nontrivial=True, obligation=ob)
+    ctx.stat(f"model_failed_fit {c['model']}/{c['failure']}")
+
+    def targets(m, Y):
+        if c["model"] != "deep":
+            return Y
+        ridges = [n for n in m.nodes if type(n).__name__ == "Ridge"]
+        return {n.name: Y for n in ridges}
+    fresh = mk()
+    r0 = common.exc_class(lambda: fresh.fit(Xs, targets(fresh, Ys), warmup=c["warmup"], **kw))
+    if r0[0] != "ok":
+        ctx.violation(f"fitting a fresh {c['model']} model raised {r0[1]}", c, obligation=ob)
+        return
+    m = mk()
+    r1 = common.exc_class(lambda: m.fit(Xb, targets(m, Yb), warmup=wbad, **kw))
+    if r1[0] == "ok":
+        ctx.stat("model_failed_fit: malformed data accepted")
+        return        # rejection of malformed data is C12's business
+    r2 = common.exc_class(lambda: m.fit(Xs, targets(m, Ys), warmup=c["warmup"], **kw))
+    if r2[0] != "ok":
+        ctx.violation(f"after a failed fit ({r1[1]}, {c['failure']} at sequence {bad}) the same {c['model']} model cannot be fitted on good data: {r2[1]}", c, obligation=ob)
+        return
+    for a, b in zip(weights(m), weights(fresh)):
+        if a.shape != b.shape or not np.allclose(a, b, rtol=0, atol=1e-9 * max(1.0, float(np.max(np.abs(b))))):
+            ctx.violation(f"a {c['model']} fit that failed at sequence {bad} ({c['failure']}: {r1[1]}) contaminated the next fit of the same model: readout weights differ "
+                          f"from a fresh model fitted on the same data by {float(np.max(np.abs(a - b))):.3g} (the sequences run before the failure were counted twice)",
+                          c, obligation=ob)
+            return
+
+
+def gen_model_failed_fit(g):
+    K = g.randint(2, 4)
+    return {"kind": "model_failed_fit", "model": g.choice(["chain", "chain", "esn", "esn", "deep"]), "failure": g.choice(["short", "features", "targets"]),
+            "K": K, "lens": [g.randint(8, 14) for _ in range(K)], "bad": g.randint(1, K - 1), "warmup": g.choice([0, 2]),
+            "seed": g.randint(0, 10 ** 6), "dseed": g.randint(0, 10 ** 6)}
+
+
 def check_case(ctx, c):
     common.quiet()
     if c["kind"] == "history":
         check_history(ctx, c)
+    elif c["kind"] == "model_failed_fit":
+        check_model_failed_fit(ctx, c)
 
 
 def run(ctx):
@@ -294,6 +367,8 @@ def run(ctx):
         check_frame(ctx, g)
     for _ in range(ctx.n(10, 100)):
         check_default_buffers(ctx, g)
+    for _ in range(ctx.n(30, 300)):
+        check_model_failed_fit(ctx, gen_model_failed_fit(g))
 
 
 def replay(ctx, data):
@@ -301,6 +376,8 @@ def replay(ctx, data):
     common.quiet()
     if c.get("kind") == "history":
         check_history(ctx, c)
+    elif c.get("kind") == "model_failed_fit":
+        check_model_failed_fit(ctx, c)
     elif c.get("kind") == "frame":
         for _ in range(40):
             check_frame(ctx, ctx.gen)
